@@ -5,7 +5,7 @@ EXTENDS H2Timers
 Cli(Rs, Ps, Ws, Hs) == [side : {"c"}, R : Rs, P : Ps, W : Ws, H : Hs, I : {0}, FS : {2}, PF : {4}, GA : {1}]
 Srv(Rs, Ps, Ws, Is, GAs) == [side : {"s"}, R : Rs, P : Ps, W : Ws, H : {0}, I : Is, FS : {2}, PF : {4}, GA : GAs]
 
-CfgsQc == Cli({0, 2, 3}, {2, 5}, {0, 2}, {0, 3})
+CfgsQc == Cli({2, 3}, {2, 5}, {0}, {0, 3}) \cup Cli({0}, {2}, {0, 2}, {0, 3})
 CfgsQs == Srv({0, 3}, {2}, {0, 2}, {0, 2, 5}, {1})
 CfgsTc == Cli({0, 2, 3}, {2, 3, 5}, {0, 2}, {0, 2, 3})
 CfgsTs == Srv({0, 2, 3}, {2, 5}, {0, 2}, {0, 2, 3, 5}, {1, 3})
